@@ -34,11 +34,18 @@ def run(ctx):
     ctx.decide("matchpy bridge: to- and from- mappers are inverse tables over "
                "the op dataclasses (field by field), every op's _mapper_method "
                "names a from-handler")
-    ctx.decline("completeness of unification and the AC search")
+    ctx.decide("AC search in UnidirectionalUnifier.map_commut_assoc: every child "
+               "of the target is used exactly once (full index set at the start, a "
+               "matched index is removed and never re-matched, a record leaves "
+               "the search only when no target child is left over or the "
+               "leftovers are partitioned among the free variables), the "
+               "partition helper covers its whole set")
+    ctx.decline("completeness of unification (records that are missed)")
     ctx.assume("matchpy's own matching is correct (external library)")
 
     _unifier_handlers(ctx, model)
     _records(ctx, model)
+    _ac_search(ctx, model)
     _matchpy(ctx, model)
 
 
@@ -322,28 +329,636 @@ def _records(ctx, model):
     ctx.ob("P/unify_map/paths", saw == {"conflict", "merged"}, mm.loc(fn),
            "conflict and merged exits" if saw == {"conflict", "merged"} else
            "unify_map no longer rejects conflicting bindings")
-    src = ast.unparse(fn).replace(" ", "")
-    ok = "result=map1.copy()" in src and "result[name]=value" in src
+    # the merge works on a copy of one map and adds the bindings of the other
+    P1, P2 = (("param", a_.arg) for a_ in fn.args.args[:2])
+    adds = False
+    for ps in summarize(fn, plain=True, loop_mode="01"):
+        if ps.term != "return" or ps.retval == ("const", None):
+            continue
+        rv = ps.retval
+        if isinstance(rv, tuple) and rv[0] == "dictextend":
+            base, k, v, src_ = rv[1:5]
+            other_p = P2 if contains(base, lambda t: t == P1) or base == P1 \
+                else P1
+            if k == ("key", other_p) and v == ("val", other_p):
+                adds = True
+    # the mapping that is written to is a fresh object: no chain of plain name
+    # assignments leads from it back to a parameter
+    pnames = {a_.arg for a_ in fn.args.args}
+    written = {t.value.id for st in ast.walk(fn) if isinstance(st, ast.Assign)
+               for t in st.targets if isinstance(t, ast.Subscript)
+               and isinstance(t.value, ast.Name)}
+    written |= {c.func.value.id for c in ast.walk(fn) if isinstance(c, ast.Call)
+                and isinstance(c.func, ast.Attribute) and c.func.attr in (
+                    "update", "setdefault", "pop", "clear")
+                and isinstance(c.func.value, ast.Name)}
+
+    def aliases_param(name, depth=0):
+        if name in pnames:
+            return True
+        if depth > 8:
+            return True
+        for st in ast.walk(fn):
+            if isinstance(st, ast.Assign) and any(
+                    isinstance(t, ast.Name) and t.id == name for t in st.targets):
+                if isinstance(st.value, ast.Name) and aliases_param(
+                        st.value.id, depth + 1):
+                    return True
+        return False
+
+    inplace = any(aliases_param(w) for w in written)
+    ok = adds and not inplace
     ctx.ob("P/unify_map/copy", ok, mm.loc(fn),
-           "the merge works on a copy and adds the new bindings")
-    # UnificationRecord.unify uses unify_map for both maps
+           "the merge works on a copy and adds the new bindings" if ok else
+           ("unify_map writes into (or returns) one of its argument maps: records "
+            "that share the map see bindings of an abandoned branch" if inplace
+            else "unify_map never adds the bindings of the second map"))
+    # UnificationRecord.unify merges both maps through unify_map and rejects
     ur = model.cls(f"{UNI}:UnificationRecord")
     un = ur.members.get("unify")
-    src = ast.unparse(un.node).replace(" ", "")
-    ok = "new_lmap=unify_map(self.lmap,other.lmap)" in src and \
-        "new_rmap=unify_map(self.rmap,other.rmap)" in src and \
-        src.count("returnNone") == 2
-    ctx.ob("P/UnificationRecord.unify/both-maps", ok, ur.loc(),
-           "both binding maps are merged through unify_map, a conflict in either "
-           "rejects" if ok else
-           "UnificationRecord.unify does not merge both maps through unify_map "
-           "with rejection")
+    OTH = ("param", un.node.args.args[1].arg)
+
+    def merged_map(v, which):
+        return isinstance(v, tuple) and v[0] == "call" and v[1] == "unify_map" \
+            and len(v[2]) == 2 and set(v[2]) == {("self", which),
+                                                 ("attr", OTH, which)}
+
+    def not_none(ps, v):
+        for _, pol, c in ps.conds:
+            if isinstance(c, tuple) and c[0] == "compare" and c[2] == v and \
+                    c[3] == (("const", None),):
+                if (c[1] == ("Is",) and pol is False) or \
+                        (c[1] == ("IsNot",) and pol is True):
+                    return True
+        return False
+
+    saw = set()
+    for ps in summarize(un.node, node_param=False):
+        if ps.term != "return":
+            continue
+        rv = ps.retval
+        if rv == ("const", None):
+            saw.add("rejected")
+            continue
+        saw.add("record")
+        ok = isinstance(rv, tuple) and rv[0] == "call" and \
+            rv[1] == "UnificationRecord"
+        what = "UnificationRecord.unify returns something else than a record"
+        if ok:
+            kw = dict(rv[3]) if len(rv) > 3 else {}
+            lm = rv[2][1] if len(rv[2]) > 1 else kw.get("lmap")
+            rm = rv[2][2] if len(rv[2]) > 2 else kw.get("rmap")
+            ok = merged_map(lm, "lmap") and merged_map(rm, "rmap") and \
+                not_none(ps, lm) and not_none(ps, rm)
+            what = ("the merged record is built from maps "
+                    f"{_short_v(lm)} / {_short_v(rm)}: both must be "
+                    "unify_map(self.X, other.X) and tested against None (a "
+                    "conflict in either rejects the merge)")
+        ctx.ob("P/UnificationRecord.unify/both-maps", ok, ur.loc(un.node),
+               "both binding maps are merged through unify_map, a conflict in "
+               "either rejects" if ok else what)
+    ctx.ob("P/UnificationRecord.unify/paths", saw == {"rejected", "record"},
+           ur.loc(un.node), f"paths {sorted(saw)}")
     # unify_many keeps only successful merges
     mm, fn = model.func(f"{UNI}:unify_many")
-    src = ast.unparse(fn).replace(" ", "")
-    ok = "ifunif_resultisnotNone:result.append(unif_result)" in src.replace("\n", "")
-    ctx.ob("P/unify_many/filters-none", ok, mm.loc(fn),
-           "rejected merges are dropped")
+    n_keep = 0
+    for ps in summarize(fn, plain=True, loop_mode="01"):
+        if ps.term != "return":
+            continue
+        rv = ps.retval
+        if not (isinstance(rv, tuple) and rv[0] == "seq"):
+            continue
+        n_keep += 1
+        elem = rv[2]
+        is_unify = isinstance(elem, tuple) and elem[0] == "call" and \
+            len(elem) > 4 and elem[4][0] == "recv" and elem[4][2] == "unify"
+        filt = not_none(ps, elem) or any(
+            isinstance(c, tuple) and c[0] == "compare" and c[2] == elem and
+            c[1] == ("IsNot",) and c[3] == (("const", None),)
+            for c in (getattr(t, "val", None)
+                      for t in (rv[4] if len(rv) > 4 else ())))
+        ok = is_unify and filt
+        ctx.ob("P/unify_many/filters-none", ok, mm.loc(fn),
+               "rejected merges are dropped" if ok else
+               "unify_many keeps an element that is not a successful merge "
+               f"({_short_v(elem)}; tested against None: {filt})")
+    ctx.floor("unify_many: keeping paths", n_keep, 1)
+
+
+def _short_v(v):
+    t = str(v)
+    return t if len(t) < 120 else t[:117] + "..."
+
+
+# ---------------------------------------------------------------------------
+# the associative-commutative search
+
+def _u(n):
+    return ast.unparse(n).replace(" ", "")
+
+
+def _nested(fn):
+    return {s.name: s for s in ast.walk(fn)
+            if isinstance(s, ast.FunctionDef) and s is not fn}
+
+
+def _assigned(fn, name):
+    """the single value assigned to a local name in fn (None if not exactly one)"""
+    vals = [s.value for s in ast.walk(fn) if isinstance(s, ast.Assign)
+            and len(s.targets) == 1 and isinstance(s.targets[0], ast.Name)
+            and s.targets[0].id == name]
+    return vals[0] if len(vals) == 1 else None
+
+
+def _empties(test, pol, out):
+    """names whose emptiness follows from test having truth value pol"""
+    if isinstance(test, ast.BoolOp):
+        if isinstance(test.op, ast.And) and pol:
+            for v in test.values:
+                _empties(v, True, out)
+        elif isinstance(test.op, ast.Or) and not pol:
+            for v in test.values:
+                _empties(v, False, out)
+        return
+    if isinstance(test, ast.UnaryOp) and isinstance(test.op, ast.Not):
+        if isinstance(test.operand, ast.Name) and pol:
+            out.add(test.operand.id)
+        elif not isinstance(test.operand, ast.Name):
+            _nonempties_inv(test.operand, pol, out)
+        return
+    if isinstance(test, ast.Name) and not pol:
+        out.add(test.id)
+        return
+    if isinstance(test, ast.Compare):
+        terms = [test.left, *test.comparators]
+        zero = any(isinstance(t, ast.Constant) and t.value == 0
+                   and type(t.value) is int for t in terms)
+        lens = [t.args[0].id for t in terms if isinstance(t, ast.Call)
+                and _u(t.func) == "len" and len(t.args) == 1
+                and isinstance(t.args[0], ast.Name)]
+        if not zero or not lens:
+            return
+        if all(isinstance(o, ast.Eq) for o in test.ops) and pol:
+            out.update(lens)
+        elif len(test.ops) == 1 and not pol and len(lens) == 1:
+            o = test.ops[0]
+            first_len = isinstance(test.left, ast.Call)
+            if isinstance(o, ast.NotEq) or (isinstance(o, ast.Gt) and first_len) \
+                    or (isinstance(o, ast.Lt) and not first_len):
+                out.update(lens)
+
+
+def _nonempties_inv(test, pol, out):
+    # not (<test>) with polarity pol  ==  <test> with polarity not pol
+    _empties(test, not pol, out)
+
+
+def _yields(path):
+    """(index, yield node) for every yield / yield from on the path"""
+    for i, it in enumerate(path):
+        if it[0] == "stmt" and isinstance(it[1], ast.Expr) and isinstance(
+                it[1].value, (ast.Yield, ast.YieldFrom)):
+            yield i, it[1].value
+
+
+def _ac_search(ctx, model):
+    from ..cfg import paths
+    uu = model.cls(f"{UNI}:UnidirectionalUnifier")
+    mem = uu.members.get("map_commut_assoc")
+    if mem is None or mem.kind != "func":
+        raise AnalysisError("UnidirectionalUnifier.map_commut_assoc not found")
+    fn = mem.node
+    m = uu.module
+    loc = lambda n=None: m.loc(n if n is not None else fn)   # noqa: E731
+    nested = _nested(fn)
+    params = [a.arg for a in fn.args.args]
+    if len(params) < 5:
+        raise AnalysisError("map_commut_assoc: unexpected signature")
+    expr_p, other_p, urecs_p, factory_p = params[1:5]
+    tag = "P/ac"
+
+    # -- class of the target tested before anything else
+    first = fn.body[0] if not (isinstance(fn.body[0], ast.Expr) and isinstance(
+        fn.body[0].value, ast.Constant)) else fn.body[1]
+    ok = isinstance(first, ast.If) and _u(first.test) == \
+        f"notisinstance({other_p},type({expr_p}))" and \
+        isinstance(first.body[-1], ast.Return) and (
+            first.body[-1].value is None)
+    ctx.ob(f"{tag}/class-tested-first", ok, loc(first),
+           "a target of another class yields no record" if ok else
+           "map_commut_assoc no longer starts by rejecting a target whose class "
+           "differs from the pattern's")
+
+    # -- the children of the pattern are split into two lists
+    split = None
+    for s in fn.body:
+        if isinstance(s, ast.For) and _u(s.iter) == f"{expr_p}.children":
+            split = s
+            break
+    if split is None or not isinstance(split.target, ast.Name):
+        raise AnalysisError("map_commut_assoc: the loop that splits "
+                            "expr.children was not recognised")
+    child = split.target.id
+    dest = {}      # list name -> set of polarities of the isinstance(Variable) test
+    nsplit = 0
+    for path in paths(fn, "1", body=split.body):
+        apps = [it[1].value for it in path if it[0] == "stmt" and isinstance(
+            it[1], ast.Expr) and isinstance(it[1].value, ast.Call) and isinstance(
+            it[1].value.func, ast.Attribute) and it[1].value.func.attr == "append"
+            and len(it[1].value.args) == 1 and _u(it[1].value.args[0]) == child]
+        nsplit += 1
+        isvar = None
+        for it in path:
+            if it[0] == "cond":
+                if f"isinstance({child},Variable)" in _u(it[1]):
+                    isvar = it[2]
+        ok = len(apps) == 1 and isvar is not None
+        ctx.ob(f"{tag}/children-split/exactly-one-list", ok, loc(split),
+               "every child of the pattern goes to exactly one of the two lists"
+               if ok else "a child of the pattern is appended to "
+               f"{len(apps)} list(s) on one path of the split loop: it is "
+               "matched twice or not at all")
+        if ok:
+            dest.setdefault(_u(apps[0].func.value), set()).add(isvar)
+    pvc = [k for k, v in dest.items() if v == {True}]
+    nv = [k for k, v in dest.items() if False in v]
+    if len(pvc) != 1 or len(nv) != 1:
+        ok = False
+        ctx.ob(f"{tag}/children-split/lists", False, loc(split),
+               f"the split produces variable list(s) {pvc} and other list(s) {nv}; "
+               "expected one of each")
+        return
+    pvc, nv = pvc[0], nv[0]
+    ctx.ob(f"{tag}/children-split/lists", True, loc(split),
+           f"free variables -> {pvc}, everything else -> {nv}")
+    # a plain variable is 'free' only if it is a declared candidate
+    ok = f"{child}.namein self.lhs_mapping_candidates".replace(" ", "") in \
+        _u(split) or f"{child}.nameinself.lhs_mapping_candidates" in _u(split)
+    ctx.ob(f"{tag}/children-split/candidates-only", ok, loc(split),
+           "only declared pattern variables are treated as free" if ok else
+           "the split no longer tests membership in lhs_mapping_candidates")
+
+    # -- candidate table: (index, records of matching pattern child i with
+    #    target child index)
+    cand_loop = None
+    for s in fn.body:
+        if isinstance(s, ast.For) and _u(s.iter) == nv:
+            cand_loop = s
+    if cand_loop is None:
+        raise AnalysisError("map_commut_assoc: candidate loop over the "
+                            "non-variable children not recognised")
+    my_child = _u(cand_loop.target)
+    inner = [s for s in cand_loop.body if isinstance(s, ast.For)]
+    if len(inner) != 1:
+        raise AnalysisError("map_commut_assoc: candidate loop shape")
+    inner = inner[0]
+    ok_iter = _u(inner.iter) == f"enumerate({other_p}.children)" and isinstance(
+        inner.target, ast.Tuple) and len(inner.target.elts) == 2
+    if not ok_iter:
+        raise AnalysisError("map_commut_assoc: inner candidate loop is not "
+                            "'for j, c in enumerate(other.children)'")
+    j, oc = (_u(e) for e in inner.target.elts)
+    apps = [c for c in ast.walk(inner) if isinstance(c, ast.Call) and isinstance(
+        c.func, ast.Attribute) and c.func.attr == "append"]
+    ok = False
+    what = "no (index, records) pair is recorded"
+    if len(apps) == 1 and isinstance(apps[0].args[0], ast.Tuple) and \
+            len(apps[0].args[0].elts) == 2:
+        a_idx, a_rec = apps[0].args[0].elts
+        recv = a_rec
+        if isinstance(recv, ast.Name):
+            recv = _assigned(inner, recv.id)
+        want = f"self.rec({my_child},{oc},{urecs_p})"
+        ok = _u(a_idx) == j and recv is not None and _u(recv) == want
+        what = (f"candidate ({_u(a_idx)}, {_u(recv) if recv is not None else '?'})"
+                f"; expected ({j}, {want})")
+    ctx.ob(f"{tag}/candidates/index-matches-child", ok, loc(inner),
+           "a candidate pairs the index of a target child with the records of "
+           "matching that very child, starting from the incoming records" if ok
+           else what)
+    cands_list = _u(apps[0].func.value) if apps else None
+    outer_apps = [c for c in cand_loop.body if isinstance(c, ast.Expr)
+                  and isinstance(c.value, ast.Call) and isinstance(
+                  c.value.func, ast.Attribute) and c.value.func.attr == "append"]
+    if len(outer_apps) != 1 or _u(outer_apps[0].value.args[0]) != cands_list:
+        raise AnalysisError("map_commut_assoc: candidate table append not found")
+    table = _u(outer_apps[0].value.func.value)
+
+    # -- start of the search
+    last = fn.body[-1]
+    if not (isinstance(last, ast.Expr) and isinstance(last.value, ast.YieldFrom)
+            and isinstance(last.value.value, ast.Call)
+            and _u(last.value.value.func) in nested):
+        raise AnalysisError("map_commut_assoc: start of the search not recognised")
+    start = last.value.value
+    mc = nested[_u(start.func)]
+    mc_params = [a.arg for a in mc.args.args]
+    if len(start.args) != 3 or len(mc_params) != 3:
+        raise AnalysisError("map_commut_assoc: search function arity")
+    roles = {}
+    for pname, a in zip(mc_params, start.args):
+        t = _u(a)
+        if t == "UnificationRecord([])":
+            roles["rec"] = pname
+        elif t == "0":
+            roles["next"] = pname
+        else:
+            roles["left"] = pname
+            ok = t == f"set(range(len({other_p}.children)))"
+            ctx.ob(f"{tag}/start/all-target-children", ok, loc(last),
+                   "the search starts with every target child unmatched" if ok
+                   else f"the search starts with leftovers {t}, not the full "
+                   "index set of the target's children")
+    if set(roles) != {"rec", "next", "left"}:
+        raise AnalysisError("map_commut_assoc: start arguments not recognised")
+    L, NX, RC = roles["left"], roles["next"], roles["rec"]
+    iL, iNX, iRC = (mc_params.index(x) for x in (L, NX, RC))
+
+    # -- match_children
+    pv_fn = None
+    n_rec_calls = 0
+    n_term_calls = 0
+    for path in paths(mc, "1"):
+        for i, y in _yields(path):
+            if not (isinstance(y, ast.YieldFrom) and isinstance(y.value, ast.Call)
+                    and _u(y.value.func) in nested):
+                ctx.ob(f"{tag}/children/yields-only-via-search", False, loc(y),
+                       f"'{_u(y)}' in {mc.name} hands out a record that has not "
+                       "gone through the leftover accounting")
+                continue
+            call = y.value
+            callee = nested[_u(call.func)]
+            before = path[:i]
+            if callee is mc:
+                n_rec_calls += 1
+                if len(call.args) != 3:
+                    raise AnalysisError(f"{mc.name}: recursive call arity")
+                # the loop over this level's candidates
+                loops = [it[1] for it in before if it[0] == "for"]
+                cl = [lp for lp in loops if _u(lp.iter) == f"{table}[{NX}]"]
+                if len(cl) != 1 or not isinstance(cl[0].target, ast.Tuple):
+                    raise AnalysisError(f"{mc.name}: loop over the candidates of "
+                                        "the current pattern child not found")
+                idx, pair = (_u(e) for e in cl[0].target.elts)
+                a_left = call.args[iL]
+                if isinstance(a_left, ast.Name):
+                    a_left = _assigned(mc, a_left.id) or a_left
+                ok = _u(a_left) == f"{L}-{{{idx}}}"
+                ctx.ob(f"{tag}/children/matched-index-removed", ok, loc(call),
+                       "the matched target index is removed from the leftovers"
+                       if ok else f"the recursion continues with leftovers "
+                       f"'{_u(a_left)}' instead of '{L} - {{{idx}}}': a target "
+                       "child can be matched twice or is lost")
+                inl = False
+                for it in before:
+                    if it[0] == "cond":
+                        t = _u(it[1])
+                        if (t == f"{idx}notin{L}" and it[2] is False) or \
+                                (t == f"{idx}in{L}" and it[2] is True):
+                            inl = True
+                ctx.ob(f"{tag}/children/no-rematch", inl, loc(call),
+                       "a candidate is used only if its target index is still "
+                       "unmatched" if inl else
+                       f"{mc.name} uses a candidate without testing that its "
+                       f"target index is still in {L}")
+                ok = _u(call.args[iNX]) in (f"{NX}+1", f"1+{NX}")
+                ctx.ob(f"{tag}/children/next-pattern-child", ok, loc(call),
+                       "the recursion advances to the next pattern child" if ok
+                       else f"the recursion continues at '{_u(call.args[iNX])}'")
+                a_rec = call.args[iRC]
+                src = None
+                for lp in loops:
+                    if _u(lp.target) == _u(a_rec):
+                        src = lp.iter
+                if isinstance(src, ast.Name):
+                    src = _assigned(mc, src.id) or src
+                ok = src is not None and _u(src) in (
+                    f"unify_many({pair},{RC})", f"unify_many({RC},{pair})")
+                ctx.ob(f"{tag}/children/records-merged", ok, loc(call),
+                       "the record so far is merged with the records of the "
+                       "matched pair" if ok else
+                       f"the recursion continues with record '{_u(a_rec)}' drawn "
+                       f"from '{_u(src) if src is not None else '?'}': the "
+                       "bindings of the matched pair (or the record so far) are "
+                       "dropped")
+            else:
+                n_term_calls += 1
+                pv_fn = callee
+                done = any(it[0] == "cond" and it[2] is True and _u(it[1]) in (
+                    f"{NX}>=len({nv})", f"{NX}==len({nv})", f"len({nv})<={NX}",
+                    f"len({nv})=={NX}") for it in before)
+                ctx.ob(f"{tag}/children/all-pattern-children-first", done,
+                       loc(call), "free variables are assigned only after every "
+                       "other pattern child has been matched" if done else
+                       f"{mc.name} moves on to the free variables without having "
+                       f"matched all of {nv}")
+                args = [_u(a) for a in call.args]
+                ok = args == [RC, L]
+                ctx.ob(f"{tag}/children/leftovers-handed-on", ok, loc(call),
+                       "record and leftovers are handed on unchanged" if ok else
+                       f"{callee.name} is called with {args}")
+    ctx.floor("AC search: recursive calls", n_rec_calls, 1)
+    ctx.floor("AC search: terminal calls", n_term_calls, 1)
+    if pv_fn is None or len(pv_fn.args.args) != 2:
+        raise AnalysisError("map_commut_assoc: free-variable stage not found")
+    R2, L2 = (a.arg for a in pv_fn.args.args)
+
+    # -- match_plain_var_candidates
+    pnested = _nested(pv_fn)
+    part_loop = None
+    for s in pv_fn.body:
+        if isinstance(s, ast.For) and isinstance(s.iter, ast.Call) and \
+                _u(s.iter.func) in pnested:
+            part_loop = s
+    if part_loop is None:
+        raise AnalysisError(f"{pv_fn.name}: loop over the partitions not found")
+    part_fn = pnested[_u(part_loop.iter.func)]
+    args = [_u(a) for a in part_loop.iter.args]
+    ok = args == [L2, f"len({pvc})"]
+    ctx.ob(f"{tag}/free/partition-of-leftovers", ok, loc(part_loop),
+           "the leftovers are partitioned into one part per free variable" if ok
+           else f"the partition is taken over {args}, expected "
+           f"[{L2}, len({pvc})]")
+    RN = None
+    for s_ in ast.walk(part_loop):
+        if isinstance(s_, ast.Assign) and len(s_.targets) == 1 and isinstance(
+                s_.targets[0], ast.Name) and any(
+                isinstance(c, ast.Attribute) and c.attr == "unify"
+                for c in ast.walk(s_.value)):
+            RN = s_.targets[0].id
+    if RN is None:
+        raise AnalysisError(f"{pv_fn.name}: running record not recognised")
+    n_direct = n_part = 0
+    for path in paths(pv_fn, "1"):
+        for i, y in _yields(path):
+            before = path[:i]
+            in_part = any(it[0] == "for" and it[1] is part_loop for it in before)
+            if not in_part:
+                n_direct += 1
+                empt = set()
+                for it in before:
+                    if it[0] == "cond":
+                        _empties(it[1], it[2], empt)
+                ok = {L2, pvc} <= empt and isinstance(y, ast.Yield) and \
+                    _u(y.value) == R2
+                ctx.ob(f"{tag}/free/direct-exit-needs-nothing-left", ok, loc(y),
+                       "a record leaves the search without assigning free "
+                       "variables only if no target child and no free variable is "
+                       "left" if ok else
+                       f"'{_u(y)}' is reached with only {sorted(empt)} known to be "
+                       f"empty: target children left in {L2} (or free variables in "
+                       f"{pvc}) are ignored, so the record does not reproduce the "
+                       "target")
+                continue
+            n_part += 1
+            # inside the partition loop: the assignment loop
+            zl = [it[1] for it in before if it[0] == "for" and it[1] is not
+                  part_loop]
+            # yields live in the else of the zip loop -> the zip loop is not on
+            # the path as 'for' if skipped; find it syntactically
+            zips = [s for s in part_loop.body if isinstance(s, ast.For)]
+            if len(zips) != 1:
+                raise AnalysisError(f"{pv_fn.name}: assignment loop not found")
+            z = zips[0]
+            in_else = any(y is n for s in z.orelse for n in ast.walk(s))
+            ctx.ob(f"{tag}/free/yield-after-all-variables", in_else, loc(y),
+                   "a record is produced only after every free variable has been "
+                   "assigned (for-else)" if in_else else
+                   f"'{_u(y)}' is not in the else clause of the assignment loop")
+            merged = isinstance(y, ast.YieldFrom) and _u(y.value) in (
+                f"unify_many({urecs_p},{RN})", f"unify_many({RN},{urecs_p})")
+            nv_nonempty = False
+            for it in before:
+                if it[0] == "cond":
+                    e2 = set()
+                    _empties(it[1], not it[2], e2)
+                    if nv in e2:
+                        nv_nonempty = True
+            ok = merged or (nv_nonempty and isinstance(y, ast.Yield)
+                            and _u(y.value) == RN)
+            ctx.ob(f"{tag}/free/incoming-records-kept", ok, loc(y),
+                   "the incoming records are merged in (directly, or through the "
+                   "matched non-variable children)" if ok else
+                   f"'{_u(y)}' drops the incoming records although no "
+                   "non-variable child has merged them in")
+    ctx.floor("AC search: direct exits", n_direct, 1)
+    ctx.floor("AC search: partition exits", n_part, 1)
+    zips = [s for s in part_loop.body if isinstance(s, ast.For)]
+    z = zips[0]
+    part_var = _u(part_loop.target)
+    ok_z = _u(z.iter) == f"zip({part_var},{pvc})" and isinstance(
+        z.target, ast.Tuple) and len(z.target.elts) == 2
+    if not ok_z:
+        raise AnalysisError(f"{pv_fn.name}: assignment loop is not "
+                            f"'for subset, var in zip({part_var}, {pvc})'")
+    sub, var = (_u(e) for e in z.target.elts)
+    eqs = [c for c in ast.walk(z) if isinstance(c, ast.Call)
+           and _u(c.func) == "self.unification_record_from_equation"]
+    ok = len(eqs) == 1 and len(eqs[0].args) == 2 and _u(eqs[0].args[0]) == var
+    rhs = eqs[0].args[1] if eqs and len(eqs[0].args) == 2 else None
+    ok_rhs = False
+    if rhs is not None and isinstance(rhs, ast.Call) and _u(rhs.func) == factory_p \
+            and len(rhs.args) == 1 and isinstance(rhs.args[0], (
+                ast.GeneratorExp, ast.ListComp)):
+        g = rhs.args[0]
+        if len(g.generators) == 1 and not g.generators[0].ifs and \
+                _u(g.generators[0].iter) == sub and \
+                _u(g.elt) == f"{other_p}.children[{_u(g.generators[0].target)}]":
+            ok_rhs = True
+    ctx.ob(f"{tag}/free/variable-gets-its-part", ok and ok_rhs, loc(z),
+           "each free variable is bound to the combination of exactly the target "
+           "children in its part" if ok and ok_rhs else
+           f"the binding is '{_u(eqs[0]) if eqs else '?'}': expected "
+           f"({var}, {factory_p}({other_p}.children[i] for i in {sub}))")
+    # the binding is merged into the running record and a failed merge stops
+    body_src = _u(z)
+    rec_name = None
+    for s in z.body:
+        if isinstance(s, ast.Assign) and eqs and s.value is eqs[0]:
+            rec_name = _u(s.targets[0])
+    merges = [_u(s_.value) for s_ in z.body if isinstance(s_, ast.Assign)
+              and _u(s_.targets[0]) == RN]
+    ok = rec_name is not None and merges == [f"{RN}.unify({rec_name})"] \
+        and _assigned_before(part_loop, z, RN) == R2
+    ctx.ob(f"{tag}/free/bindings-merged", ok, loc(z),
+           "every binding is merged into the record so far (conflicts reject)"
+           if ok else "the bindings of the free variables are not merged into "
+           f"the record that started as {R2}")
+    brk = [s for s in z.body if isinstance(s, ast.If) and any(
+        isinstance(b, ast.Break) for b in s.body)]
+    ok = len(brk) == 1 and _u(brk[0].test) in (f"not{RN}", f"{RN}isNone")
+    ctx.ob(f"{tag}/free/conflict-abandons-partition", ok, loc(z),
+           "a conflicting binding abandons the partition" if ok else
+           "a failed merge no longer leaves the assignment loop")
+
+    # -- the partition helper
+    k_params = [a.arg for a in part_fn.args.args]
+    if len(k_params) != 2:
+        raise AnalysisError(f"{part_fn.name}: arity")
+    S, K = k_params
+    saw = set()
+    for path in paths(part_fn, "1"):
+        for i, y in _yields(path):
+            before = path[:i]
+            base = any(it[0] == "cond" and it[2] is True and _u(it[1]) in (
+                f"{K}==1", f"1=={K}") for it in before)
+            if base:
+                saw.add("base")
+                ok = isinstance(y, ast.Yield) and _u(y.value) == f"[{S}]"
+                ctx.ob(f"{tag}/partitions/base-is-whole-set", ok, loc(y),
+                       "one part: the whole set" if ok else
+                       f"the base case yields '{_u(y)}', not [{S}]")
+                continue
+            saw.add("step")
+            loops = [it[1] for it in before if it[0] == "for"]
+            rec_loops = [lp for lp in loops if isinstance(lp.iter, ast.Call)
+                         and _u(lp.iter.func) == part_fn.name]
+            sub_loops = [lp for lp in loops if lp not in rec_loops]
+            ok = False
+            what = f"the step yields '{_u(y)}'"
+            if len(rec_loops) == 1 and len(sub_loops) == 1 and isinstance(
+                    y, ast.Yield):
+                sv = _u(sub_loops[0].target)
+                rv = _u(rec_loops[0].target)
+                rargs = [_u(a) for a in rec_loops[0].iter.args]
+                ok = rargs == [f"{S}-{sv}", f"{K}-1"] and _u(y.value) in (
+                    f"[{sv},*{rv}]", f"[{sv}]+{rv}", f"[*{rv},{sv}]",
+                    f"{rv}+[{sv}]")
+                what = (f"the step yields '{_u(y)}' with the rest drawn from "
+                        f"{part_fn.name}({', '.join(rargs)})")
+            ctx.ob(f"{tag}/partitions/step-splits-off-a-subset", ok, loc(y),
+                   "a part is split off and the rest is partitioned into k-1 "
+                   "parts" if ok else what + f"; expected [{'subset'}, *rest] "
+                   f"with rest from {part_fn.name}({S} - subset, {K} - 1)")
+    ctx.ob(f"{tag}/partitions/paths", saw == {"base", "step"}, loc(part_fn),
+           f"paths {sorted(saw)}")
+    # parts are non-empty: the subset generator starts at size 1
+    gens = [f for name, f in pnested.items() if f is not part_fn and any(
+        isinstance(c, ast.Call) and _u(c.func) == name for c in ast.walk(part_fn))]
+    if len(gens) != 1:
+        raise AnalysisError(f"{part_fn.name}: subset generator not recognised")
+    rng = [c for c in ast.walk(gens[0]) if isinstance(c, ast.Call)
+           and _u(c.func) == "range"]
+    if len(rng) != 1 or len(rng[0].args) != 2:
+        raise AnalysisError(f"{gens[0].name}: size range not recognised")
+    lo = rng[0].args[0]
+    ok = isinstance(lo, ast.Constant) and type(lo.value) is int and lo.value >= 1
+    ctx.ob(f"{tag}/partitions/parts-non-empty", ok, loc(rng[0]),
+           "every part holds at least one target child" if ok else
+           f"subset sizes start at {_u(lo)}: a free variable can be bound to an "
+           "empty combination")
+
+
+def _assigned_before(outer_loop, stmt, name):
+    """value of the last simple assignment to name in outer_loop.body before stmt"""
+    val = None
+    for s in outer_loop.body:
+        if s is stmt:
+            break
+        if isinstance(s, ast.Assign) and len(s.targets) == 1 and \
+                _u(s.targets[0]) == name:
+            val = _u(s.value)
+    return val
 
 
 # ---------------------------------------------------------------------------
